@@ -606,6 +606,58 @@ func mxjOp(st mxjStep) (name, got, want string) {
 			return name + " error class", cls(err) + " " + tagged.CanonGo(m), "err " + exp.Post.Norm()
 		}
 		return name, fmt.Sprintf("%d %v %s", n, err, tagged.CanonGo(m)), fmt.Sprintf("%d <nil> %s", exp.C, exp.Post.Norm())
+	case "beautify":
+		// BeautifyXml of the sequence probe: only its effect on the registers is of interest here (none), and that it succeeds
+		cv := mxj.VerifOptions()["checkValid"].(bool) // (the probe text is not escaped in some register states)
+		mxj.XmlCheckIsValid(false)
+		_, err := mxj.BeautifyXml([]byte(mxjProbeSeqDoc), "", " ")
+		mxj.XmlCheckIsValid(cv)
+		return "BeautifyXml(probe)", cls(err), "ok"
+	case "copy":
+		var tv tagged.TV
+		if err := json.Unmarshal(st.R, &tv); err != nil {
+			panic(err)
+		}
+		cp, err := mxj.Map{"n": json.Number("1.50"), "s": "x", "l": []interface{}{2.0, "y"}}.Copy()
+		return "Copy of {n:Number(1.50),s:x,l:[2,y]}", tagged.CanonGo(cp) + fmt.Sprint(err), tv.Norm() + "<nil>"
+	case "rename":
+		var tv tagged.TV
+		if err := json.Unmarshal(st.R, &tv); err != nil {
+			panic(err)
+		}
+		m := mxj.Map{"a": map[string]interface{}{"b": "1", "c": "2", "ab-c": "3"}}
+		err := m.RenameKey("a.b", st.Arg)
+		if tv.T == "s" { // the specification says: refused
+			return fmt.Sprintf("RenameKey(\"a.b\", %q) error class", st.Arg), cls(err) + " " + tagged.CanonGo(m), "err " + tagged.CanonGo(mxj.Map{"a": map[string]interface{}{"b": "1", "c": "2", "ab-c": "3"}})
+		}
+		return fmt.Sprintf("RenameKey(\"a.b\", %q)", st.Arg), tagged.CanonGo(m) + fmt.Sprint(err), tv.Norm() + "<nil>"
+	case "updk":
+		var exp struct {
+			Ok   bool       `json:"ok"`
+			C    int        `json:"c"`
+			Post *tagged.TV `json:"post"`
+		}
+		if err := json.Unmarshal(st.R, &exp); err != nil {
+			panic(err)
+		}
+		m := mxjQueryMap()
+		n, err := m.UpdateValuesForPath(map[string]interface{}{"id": "Z"}, "a", st.Arg)
+		name = fmt.Sprintf("UpdateValuesForPath({id:Z}, \"a\", %q)", st.Arg)
+		if !exp.Ok {
+			return name + " error class", cls(err) + " " + tagged.CanonGo(m), "err " + exp.Post.Norm()
+		}
+		return name, fmt.Sprintf("%d %v %s", n, err, tagged.CanonGo(m)), fmt.Sprintf("%d <nil> %s", exp.C, exp.Post.Norm())
+	case "vfp":
+		var exp []*tagged.TV
+		if err := json.Unmarshal(st.R, &exp); err != nil {
+			panic(err)
+		}
+		wide := make([]interface{}, 40)
+		for i := range wide {
+			wide[i] = "v" + strconv.Itoa(i+1)
+		}
+		vals, err := mxj.Map{"a": wide}.ValuesForPath(st.Arg)
+		return fmt.Sprintf("ValuesForPath(%q) on a list of 40", st.Arg), strings.Join(tagged.CanonList(vals), " ") + fmt.Sprint(err), strings.Join(tagged.NormList(exp), " ") + "<nil>"
 	case "newmap":
 		var tv tagged.TV
 		if err := json.Unmarshal(st.R, &tv); err != nil {
@@ -648,6 +700,9 @@ func mxjOp(st mxjStep) (name, got, want string) {
 			panic(err)
 		}
 		m, err := mxj.NewMapJson([]byte(`{"n":1.50,"s":"x"}`))
+		if st.Arg == "reader" {
+			m, err = mxj.NewMapJsonReader(hideByteReader{strings.NewReader(`{"n":1.50,"s":"x"}`)})
+		}
 		nv := "?"
 		switch x := m["n"].(type) {
 		case json.Number:
@@ -723,6 +778,7 @@ func replayMxj(line []byte, a *Acc) {
 		}
 		n++
 		var name, got, want string
+		regsBefore := fmt.Sprint(mxj.VerifOptions())
 		if p := guard(func() { name, got, want = mxjOp(st) }); p != "" {
 			if strings.Contains(p, "unknown operation") || strings.Contains(p, "json:") {
 				panic(p)
@@ -731,6 +787,11 @@ func replayMxj(line []byte, a *Acc) {
 			break
 		}
 		hs = append(hs, st.Op+"["+st.Arg+"]")
+		// operations do not touch the registers (OpStep: UNCHANGED opt)
+		if regsAfter := fmt.Sprint(mxj.VerifOptions()); regsAfter != regsBefore && !reported["regs:"+st.Op] {
+			reported["regs:"+st.Op] = true
+			a.Mis("mxj:registers-changed-by:"+st.Op, fmt.Sprintf("session %s: %s changed the option registers: %s -> %s", strings.Join(hs, " "), name, regsBefore, regsAfter), l)
+		}
 		if got != want && !reported[st.Op] {
 			reported[st.Op] = true
 			a.Mis("mxj:"+st.Op, fmt.Sprintf("session %s: %s = %s, the specification under the registers of that step gives %s", strings.Join(hs, " "), name, short(got), short(want)), l)
@@ -751,6 +812,6 @@ func replayMxj(line []byte, a *Acc) {
 }
 
 func init() {
-	register("mxj", &family{replay: replayMxj, serial: true,
+	register("mxj", &family{replay: replayMxj, serial: true, ctxLines: 400,
 		rule: "one case = one operation call (NewMapXml, NewMapXml with cast, NewMapXmlSeq, Map.Xml, LeafNodes, ValuesForKey with a sub-key string) inside a session of setter and operation calls, compared with the specification's result under the registers of that step; non-trivial = the session contains setter calls"})
 }
